@@ -170,9 +170,8 @@ def run(tier, seed):
         if key in seen:
             continue
         seen.add(key)
-        if r[1] == "SyntaxError" and "{" in r[3]:
-            continue
-        if "{" in r[3] and "]..." in d["description"]:
+        from ._parser_enum import is_known_braces
+        if is_known_braces(d["description"], r[3]):
             chk.known_finding("F-ellipsis-braces", "a bracket group of >= 2 axes under an ellipsis prints with braces, which the parser rejects")
             continue
         chk.violation(f"C03.B.raises_documented[{d['op']}]", f"einx.{d['op']}({d['description']!r}, shapes={d['shapes']}, {d['kwargs']}) [{d['edit']} of {d['seed_call']!r}] escapes with {r[1]} at {r[2]}: {r[3]}",
